@@ -86,10 +86,13 @@ def enc_part_headers(rng, p, vary):
         if not vary:
             return s
         return rng.choice([s, s.lower(), s.upper(), s[:9] + s[9:].lower()])
-    h = nm(b"Content-Disposition") + b": form-data; name=\"" + p["name"] + b"\""
+    h = nm(b"Content-Disposition") + b": form-data"
+    params = [b"; name=\"" + p["name"] + b"\""]
     if p.get("filename") is not None:
-        h += b"; filename=\"" + p["filename"] + b"\""
-    h += b"\r\n"
+        params.append(b"; filename=\"" + p["filename"] + b"\"")
+        if vary and rng.random() < 0.5:
+            params.reverse()            # RFC 7578 does not fix the order of the parameters
+    h += b"".join(params) + b"\r\n"
     if p.get("ctype") is not None:
         h += nm(b"Content-Type") + b": " + p["ctype"] + b"\r\n"
     if p.get("enc") is not None:
@@ -322,7 +325,7 @@ def gen_url_small_cases(ctx, thorough):
     """well-formed bodies <= 200 B x all 2-way splits (+ all 3-way in thorough / sampled in
     quick) + byte-by-byte"""
     rng = ctx.rng
-    nb = 60 if thorough else 25
+    nb = 150 if thorough else 70
     for i in range(nb):
         fields = gen_url_fields(rng, small=True)
         body = enc_url(rng, fields, style=i % 2)
@@ -370,7 +373,7 @@ def gen_url_staging_cases(ctx, thorough):
 
 def gen_url_big_cases(ctx, thorough):
     rng = ctx.rng
-    n = 300 if thorough else 60
+    n = 600 if thorough else 150
     for i in range(n):
         fields = gen_url_fields(rng, small=False)
         if rng.random() < 0.5:
@@ -399,7 +402,7 @@ MAL_URL_ALPHA = list(b"a=&%+\n\r1fg\x00%=&")
 
 def gen_url_malformed(ctx, thorough):
     rng = ctx.rng
-    n = 3000 if thorough else 400
+    n = 6000 if thorough else 1500
     for i in range(n):
         body = rand_bytes(rng, rng.randint(1, 40), MAL_URL_ALPHA)
         if i % 7 == 0:
@@ -490,8 +493,8 @@ def mp_ctype(rng, boundary):
 
 def gen_mp_cases(ctx, thorough, nested):
     rng = ctx.rng
-    nsmall = (40 if thorough else 14) if not nested else (25 if thorough else 8)
-    nbig = (200 if thorough else 40) if not nested else (100 if thorough else 20)
+    nsmall = (120 if thorough else 40) if not nested else (80 if thorough else 30)
+    nbig = (500 if thorough else 120) if not nested else (300 if thorough else 80)
     tagp = "mpn" if nested else "mp"
     for i in range(nsmall + nbig):
         small = i < nsmall
@@ -509,7 +512,7 @@ def gen_mp_cases(ctx, thorough, nested):
         exp = expected_multipart(parts)
         ct = mp_ctype(rng, boundary)
         n = len(body)
-        if small and n <= (200 if thorough else 160):
+        if small and n <= ((200 if thorough else 160) if not nested else 330):
             bs = rng.choice(BUFSIZES)
             yield Case("mp", bs, ct, [body], exp, tagp + "-whole")
             yield Case("mp", bs, ct, [body[j:j + 1] for j in range(n)], exp, tagp + "-bytewise")
@@ -550,7 +553,7 @@ def gen_mp_limits(ctx, thorough):
 
 def gen_mp_malformed(ctx, thorough):
     rng = ctx.rng
-    n = 2500 if thorough else 350
+    n = 8000 if thorough else 1500
     frag = [b"--", b"B0", b"--B0", b"\r\n", b"\r", b"\n", b"--B0--", b"Content-Disposition: form-data; name=\"a\"",
             b"content-type: multipart/mixed; boundary=N1", b"Content-Type: multipart/mixed", b"--N1", b"--N1--",
             b"Content-Transfer-Encoding: binary", b"name=", b"\"", b"x", b"-", b"\x00", b": ", b"filename=\"f\"",
@@ -619,7 +622,8 @@ def signature(case, kind, msg):
 class Spec:
     props_module = "Mhd.Props.C15"
     lean_targets = ["Mhd.Props.C15", "drv_pp"]
-    required_theorems = []
+    required_theorems = ["Mhd.C15.url_roundtrip_tokens", "Mhd.C15.url_every_call_accepts", "Mhd.C15.url_roundtrip",
+                         "Mhd.C15.url_split_independent"]
     trusted_base = ["Lean 4 kernel", "axioms: propext, Classical.choice, Quot.sound at most (audited per theorem)",
                     "hand-written model lean/Mhd/Model/PP*.lean tied to postprocessor.c by this run's correspondence",
                     "tools/props/C15.py gen_pp (XBUF_SIZE, sizeof pp->xbuf, encoding names, minimum buffer regenerated)",
